@@ -22,4 +22,4 @@ For each mutation i in (1, 2) deliver in {wt}/_seed/m<i>/ :
   * patch.diff  — `git diff` of the mutation alone against the worktree's HEAD (apply one mutation at a time; `git checkout -- .` between them, keep _seed/ untracked),
   * demo_test.go (or a small main program) — a demonstration that FAILS with the mutation applied and PASSES without it (say in a comment where to place it / how to run it, e.g. copy into the package dir and `go test -run TestSeedDemo ./pkg/...`); verify both directions yourself,
   * meta.json — {{"property": "{pid}", "summary": "...", "needs_to_manifest": "...", "files_touched": [...], "tests_run": ["..."], "demo_cmd": "..."}}.
-Leave the worktree clean (no mutation applied) at the end, with only the untracked _seed/ directory added. Final message: a short description of both mutations and confirmation of what you ran.""")
+Never use `git stash` (the stash is shared between all worktrees of the repository; use `git diff > file`, `git checkout -- .`, `git apply file` instead). Leave the worktree clean (no mutation applied) at the end, with only the untracked _seed/ directory added. Final message: a short description of both mutations and confirmation of what you ran.""")
